@@ -197,7 +197,10 @@ func (r *readOnlySegmentsGroup) PollHighestSegment() (object.RefCount[ReadOnlySe
 	r.allSegments.Remove(offset)
 	segment, found := r.openSegments.Get(offset)
 	if found {
-		return segment.Acquire(), nil
+		// Hand the cache's reference over to the caller: the segment is going to be
+		// truncated or deleted and must not be served from the cache anymore
+		r.openSegments.Remove(offset)
+		return segment, nil
 	}
 
 	roSegment, err := newReadOnlySegment(r.basePath, offset)
